@@ -2,6 +2,12 @@
 
 package roles
 
+import (
+	"time"
+
+	"shanhu.io/g/timeutil"
+)
+
 // This file is only built with the "verif" tag. It lets an external
 // verification harness read the stored passcode record of a role; it adds no
 // behaviour to the package.
@@ -53,3 +59,24 @@ func (b *Roles) VerifPassCodeState(name string) (*VerifPassCode, error) {
 
 // VerifPassCodeMaxTries is the attempt limit constant.
 const VerifPassCodeMaxTries = passCodeMaxTries
+
+// VerifSetPassCode stores a passcode record as given (as data written by
+// other means than NewPassCode would be): the window fields may be absent and
+// the counter arbitrary.
+func (b *Roles) VerifSetPassCode(name string, pc *VerifPassCode) error {
+	return b.mutate(name, func(r *role) error {
+		if pc == nil || !pc.Has {
+			r.PassCode = nil
+			return nil
+		}
+		c := &passCode{Code: pc.Code, Consumed: pc.Consumed, Tried: pc.Tried}
+		if pc.HasValid {
+			c.Valid = timeutil.NewTimestamp(time.Unix(0, pc.ValidNano))
+		}
+		if pc.HasExpire {
+			c.Expire = timeutil.NewTimestamp(time.Unix(0, pc.ExpireNano))
+		}
+		r.PassCode = c
+		return nil
+	})
+}
